@@ -1,5 +1,6 @@
 import VpnCloud.Model.Bytes
 import VpnCloud.Generated.Consts
+import VpnCloud.Generated.Guards
 /-
   Model of src/crypto/core.rs: `Nonce`, `CryptoKey`, `CryptoCore`.
 
@@ -108,17 +109,17 @@ def reconstruct (c : Core) (counter : Nat) : Nat := (if c.half then 0 else HALF)
 
 /-- `CryptoCore::decrypt` (with `decrypt_with_key`) -/
 def decrypt (c : Core) (d : Dgram) : Core × Except CoreErr Bytes :=
-  if d.len < Generated.EXTRA_LEN + Generated.TAG_LEN then (c, .error .tooShort)
-  else if d.keyId ≥ SLOTS then (c, .error .badKeyId)
+  if Generated.datagramTooShort d.len then (c, .error .tooShort)
+  else if Generated.keyIdInvalid d.keyId then (c, .error .badKeyId)
   else match c.slots[d.keyId]? with
   | none => (c, .error .badKeyId)
   | some k =>
     let nonce := reconstruct c d.counter
-    if nonce < k.min then (c, .error .oldNonce)
+    if Generated.nonceTooOld nonce k.min then (c, .error .oldNonce)
     else match d.body with
     | .sealed key n plain =>
       if key = k.key ∧ n = nonce then
-        let k' := if k.seen < nonce then { k with seen := nonce } else k
+        let k' := if Generated.seenAdvances k.seen nonce then { k with seen := nonce } else k
         ({ c with slots := c.slots.set d.keyId k' }, .ok plain)
       else (c, .error .openFailed)
     | .garbage _ => (c, .error .openFailed)
